@@ -331,10 +331,19 @@ func (bs *baseServer) Handshake(transportName string, ctx *types.HttpContext) (*
 	bs.clients.Store(id, socket)
 	bs.clientsCount.Add(1)
 
-	socket.Once("close", func(...any) {
-		bs.clients.Delete(id)
-		bs.clientsCount.Add(^uint64(0))
-	})
+	unregister := func(...any) {
+		if _, ok := bs.clients.LoadAndDelete(id); ok {
+			bs.clientsCount.Add(^uint64(0))
+		}
+	}
+	socket.Once("close", unregister)
+
+	// The transport is already live: the session may have closed before the
+	// listener above existed, in which case its close event is gone for good.
+	if socket.ReadyState() == "closed" {
+		unregister()
+		return nil, transport
+	}
 
 	bs.Emit("connection", socket)
 
